@@ -45,3 +45,13 @@ Theorem C07_new_claims_report_their_profile :
   get_profile (new_p2 spec_ccfg) = Ok (prof2 spec_ccfg).
 Proof. exact new_claims_report_their_profile. Qed.
 Print Assumptions C07_new_claims_report_their_profile.
+
+(** JSON: an accepted document was decoded into the claims type of a built-in profile and,
+    once validated, reports exactly that profile *)
+From PSA Require Import Json JsonCodec JsonCross.
+Theorem C07_json_validated_under_declared : forall (j : json) (c : claims),
+  decode_json spec_ccfg W j = DOk c -> validate spec_ccfg c = Ok tt ->
+  ((c_kind c = K1 /\ c_canon c = prof1 spec_ccfg) \/ (c_kind c = K2 /\ c_canon c = prof2 spec_ccfg)) /\
+  get_profile c = Ok (c_canon c).
+Proof. exact json_validated_under_declared. Qed.
+Print Assumptions C07_json_validated_under_declared.
